@@ -1253,7 +1253,7 @@ def _diff_evaluate_deltas(ctx, order, log):
         # a delta between two target indices stays
         return mul([factor("f", [i, j]), factor("delta", [j, k_], (j, k_)), factor("delta", [a, b], (a, b)), factor("t", [k_, l])]), None
     for k in range(3):
-        sx = OrderSymex(ctx.model, inline=lambda q: q == "func:evaluate_deltas", order=order, log=log, what="evaluate_deltas", max_paths=256,
+        sx = OrderSymex(ctx.model, inline=lambda q: q.startswith("func:"), order=order, log=log, what="evaluate_deltas", max_paths=256,
                         hooks={"get_symbols": lambda s_, a_, k_: list(a_[0]) if isinstance(a_[0], (list, tuple)) else NotImplemented})
         outs = sx.run(fn, lambda: dict(zip(("expr", "target_idx"), scen(k))))
         res.append(sorted((o.kind, o.value.name if isinstance(o.value, Obj) else _okey(o.value)) for o in outs))
@@ -1270,7 +1270,7 @@ def _diff_evaluate_deltas(ctx, order, log):
     def terms(sx_, a, kw):
         return [mul([factor("d", [p_, q_]), factor("X", [r_, s_]), factor("delta", [p_, q_], (p_, q_)), factor("delta", [q_, i_], (i_, q_))]),
                 mul([factor("d", [p_, q_]), factor("X", [r_, s_]), factor("delta", [r_, q_], (r_, q_)), factor("delta", [p_, s_], (s_, p_))])]
-    sx = OrderSymex(ctx.model, inline=lambda q: q in ("func:wicks", "func:evaluate_deltas", "func:_indices_on_single_object"), order=order, log=log,
+    sx = OrderSymex(ctx.model, inline=lambda q: q.startswith("func:"), order=order, log=log,
                     what="wicks", max_paths=512,
                     hooks={"get_symbols": lambda s_2, a_, k_: list(a_[0]) if isinstance(a_[0], (list, tuple)) else NotImplemented,
                            "_contract_operator_string": lambda s_2, a_, k_: sym("contractions"),
@@ -1326,7 +1326,7 @@ def _diff_spatial(ctx, order, log):
         E.attrs.update(terms=[term("T1", [ia, ja, aa]), term("T2", [ib, jb, ab, ab]), term("T3", [ka, jb, bb, ib])],
                        assumptions={}, provided_target_idx=None)
         return E
-    sx = OrderSymex(ctx.model, inline=lambda q: q in ("indices:order_substitutions",), order=order, log=log, what="transform_to_spatial_orbitals",
+    sx = OrderSymex(ctx.model, inline=lambda q: q == "indices:order_substitutions" or q.startswith("spatial_orbitals:"), order=order, log=log, what="transform_to_spatial_orbitals",
                     max_paths=256, hooks={"get_symbols": get_symbols, "integrate_spin": lambda s_, a_, k_: scen(),
                                           "Expr": lambda s_, a_, k_: sym("restricted")})
     outs = sx.run(fn, lambda: dict(expr=sym("input"), target_idx="", target_spin="", restricted=True, expand_eri=False))
@@ -1368,7 +1368,7 @@ def _diff_expand_itmd(ctx, order, log):
     hk = im.hooks()
     hk.update({"validate_indices": lambda s_, a_, k_: list(state["new"]), "_build_expanded_itmd": lambda s_, a_, k_: state["built"],
                "Indices": lambda s_, a_, k_: Obj("indices:Indices", "Indices()")})
-    sx = OrderSymex(ctx.model, inline=lambda q: q in ("indices:order_substitutions",), order=order, log=log, what="expand_itmd", max_paths=256,
+    sx = OrderSymex(ctx.model, inline=lambda q: q == "indices:order_substitutions" or q.startswith("intermediates:"), order=order, log=log, what="expand_itmd", max_paths=256,
                     hooks=hk)
     outs = sx.run(fn, args)
     res.append(sorted((o.kind, repr(_unordered_dicts(canon(o.value))) if o.kind == "return" else o.exc) for o in outs))
